@@ -115,7 +115,7 @@ theorem finish_par_shape (pf : Glue) (l : List Item) :
       refine ⟨l.dropLast, rfl, Or.inl ⟨k, g, ?_⟩⟩
       have hne : l ≠ [] := by intro e; rw [e] at h; simp at h
       have := List.dropLast_concat_getLast hne
-      rw [List.getLast?_eq_getLast hne] at h
+      rw [List.getLast?_eq_some_getLast hne] at h
       rw [← Option.some.inj h]; exact this.symm
     | box _ => exact ⟨l, rfl, Or.inr ⟨rfl, by simp⟩⟩
     | inert _ => exact ⟨l, rfl, Or.inr ⟨rfl, by simp⟩⟩
@@ -226,19 +226,22 @@ theorem space_factor_spec (codes : List Int) (sf : Int) (c : Nat) :
 /-- The space factor is never zero or negative (so `add_space` never divides by zero). -/
 theorem space_factor_positive (codes : List Int) (w : List Nat) (sf : Int) (h : 0 < sf) :
     0 < sfWord codes sf w := by
+  have core : ∀ (new sf : Int), 0 < sf →
+      0 < (if 0 < new ∧ new ≤ 1000 then new
+           else if 1000 < new then (if sf < 1000 then 1000 else new) else sf) := by
+    intro new sf hsf
+    split
+    · omega
+    · split
+      · split <;> omega
+      · exact hsf
   unfold sfWord
   induction w generalizing sf with
   | nil => simpa using h
   | cons c t ih =>
     simp only [List.foldl_cons]
     apply ih
-    unfold sfAdjust
-    simp only
-    split
-    · omega
-    · split
-      · split <;> omega
-      · exact h
+    exact core _ sf h
 
 /-- **Inter-word glue (after fixes/C12-b.patch).** Whenever TeX.2021.1041–§1044 define the glue
 for a space (space factor in TeX's range `1..32767`, no dimension overflow), `add_space`
@@ -256,26 +259,13 @@ theorem inter_word_glue_spec (tp : TextParams) (f : Font) (sf : Int) (g : Glue)
     · simp only [h2, and_self, if_true] at h ⊢
       rw [Option.some.inj h]
     · simp only [h2, if_false] at h ⊢
-      simp only at h
+      generalize (if (!tp.spaceSkip.isZero) = true then tp.spaceSkip else f.glue) = mp at h ⊢
       split at h
       · simp at h
       · rename_i hb
         simp only [not_or, Int.not_lt, Int.not_le] at hb
         obtain ⟨b1, b2, b3, b4, b5, b6⟩ := hb
-        unfold scaleBySf xnOverD
-        have c1 : ¬ (sf > 65536 ∨ (1000 : Int) > 65536) := by omega
-        have c2 : ¬ ((1000 : Int) > 65536 ∨ sf > 65536) := by omega
-        have c3 : ¬ ((1000 : Int) = 0) := by omega
-        have c4 : ¬ (sf = 0) := by omega
-        simp only [c1, c2, c3, c4, if_false]
-        have d1 : ¬ ((Int.tdiv ((if (!tp.spaceSkip.isZero) = true then tp.spaceSkip else f.glue).st * sf) 1000) < -maxDimen ∨
-            (Int.tdiv ((if (!tp.spaceSkip.isZero) = true then tp.spaceSkip else f.glue).st * sf) 1000) > maxDimen) := by
-          omega
-        have d2 : ¬ ((Int.tdiv ((if (!tp.spaceSkip.isZero) = true then tp.spaceSkip else f.glue).sh * 1000) sf) < -maxDimen ∨
-            (Int.tdiv ((if (!tp.spaceSkip.isZero) = true then tp.spaceSkip else f.glue).sh * 1000) sf) > maxDimen) := by
-          omega
-        simp only [d1, d2, if_false]
-        rw [← Option.some.inj h]
+        rw [scaleBySf_spec mp f.extra sf b1 b2 b3 b4 b5 b6, ← Option.some.inj h]
 
 /-! ## Non-vacuity and the behaviour before the repairs -/
 
@@ -294,7 +284,7 @@ example : exList = [.box 0, .glue 0 gl, .penalty 0, .glue 0 gl, .box 1, .penalty
 example : ValidBreaks exList [1, 7] := by decide
 
 /-- The model on the witness of C12-a: the penalty and the second glue are pruned. -/
-example : postLineBreak { widths := [12] } exList [1, 7] = .ok
+example : (postLineBreak { widths := [12] } exList [1, 7]).toOption = some
     [ { left := [], post := [], body := [.box 0], brk := [], right := .glue 0 {}, width := 12, indent := 0,
         pen := some 300 },
       { left := [], post := [], body := [.box 1, .penalty 10000, .glue 0 pfill], brk := [],
@@ -314,7 +304,8 @@ def exList2 : List Item :=
    .penalty 10000, .glue 0 pfill]
 
 example : ValidBreaks exList2 [1, 4, 10] := by decide
-example : (∀ it ∈ exList2, it.packTodo = false) ∧ penFits { widths := [12] } := by decide
+example : (∀ it ∈ exList2, it.packTodo = false) ∧ penFits { widths := [12] } :=
+  ⟨by decide, by unfold penFits; decide⟩
 
 example : (postLineBreak { widths := [12, 9], indents := [2], leftSkip := { w := 1 } } exList2 [1, 4, 10]).toOption.map
       (fun ls => ls.map fun ln => (ln.flat, ln.width, ln.indent, ln.pen)) = some
